@@ -372,6 +372,21 @@ func (e *FnEnc) loopModSet(li *loopInfo) map[string]bool {
 					if _, ok := libModels[name]; ok {
 						continue
 					}
+					switch name {
+					case "fmt.Errorf", "fmt.Sprintf", "path/filepath.Join":
+						mod[AllocVar.Name] = true
+						continue
+					case "sort.Strings":
+						mod[s.ArrHeap(types.Typ[types.String]).Name] = true
+						continue
+					case "sort.Slice", "sort.SliceStable":
+						if mi, ok := c.Args[0].(*ssa.MakeInterface); ok {
+							if st, ok := mi.X.Type().Underlying().(*types.Slice); ok {
+								mod[s.ArrHeap(st.Elem()).Name] = true
+								continue
+							}
+						}
+					}
 					if e.W.IsPure(name) || e.W.NoHeapEffect(name) {
 						continue
 					}
@@ -421,6 +436,7 @@ func (e *FnEnc) loopModSet(li *loopInfo) map[string]bool {
 				mod[name] = true
 			}
 		}
+		mod["*"] = true // the loop contains an unknown computation: no frame is claimed for it
 	}
 	return mod
 }
@@ -531,7 +547,15 @@ func (e *FnEnc) loopHeader(b *ssa.BasicBlock, li *loopInfo, fwd []*ssa.BasicBloc
 			continue
 		}
 		// frame: objects that existed before the loop and are not declared modified keep their value
-		e.assume(e.frameFact(nw, old, li.preAlloc, li.modRefs[name]))
+		if !mod["*"] {
+			e.assume(e.frameFact(nw, old, li.preAlloc, li.modRefs[name]))
+		} else {
+			for _, l := range e.locals {
+				if l.heap == name && !e.writtenInLoop(li, l.ref) {
+					e.assume(sx("=", sx("select", nw, l.ref), sx("select", old, l.ref)))
+				}
+			}
+		}
 	}
 	li.hdrState = copyState(e.cur)
 	// 3. assume invariants
@@ -687,7 +711,7 @@ func (e *FnEnc) backEdge(from *ssa.BasicBlock, li *loopInfo) {
 	mod := e.loopModSet(li)
 	for _, name := range sortedKeys(mod) {
 		hv, ok := e.heapVars[name]
-		if !ok || name == AllocVar.Name || strings.HasPrefix(name, "VIS.") || strings.HasPrefix(name, "POS.") || strings.HasPrefix(name, "GH.") {
+		if !ok || mod["*"] || name == AllocVar.Name || strings.HasPrefix(name, "VIS.") || strings.HasPrefix(name, "POS.") || strings.HasPrefix(name, "GH.") {
 			continue
 		}
 		nw := e.heapIn(st, hv)
@@ -1082,6 +1106,18 @@ func (e *FnEnc) revealed(name string) bool {
 	for _, r := range e.con.Reveals {
 		if r == name {
 			return true
+		}
+	}
+	return false
+}
+
+// writtenInLoop: the loop stores through the local allocation with this reference term.
+func (e *FnEnc) writtenInLoop(li *loopInfo, ref string) bool {
+	for _, ts := range li.modRefs {
+		for _, t := range ts {
+			if t.ref == ref {
+				return true
+			}
 		}
 	}
 	return false
